@@ -809,6 +809,13 @@ func (m *manager) resumeAccount(ctx context.Context, account *Account, // nolint
 				"%v", err)
 		}
 
+		// The update we're waiting for might have changed the expiry of
+		// the account (a batch can extend it). Make sure the watcher
+		// tracks the account's current expiry and not a previous one.
+		m.watcherCtrl.WatchAccountExpiration(
+			account.TraderKey.PubKey, account.Expiry,
+		)
+
 		// Only subscribe to auction updates for this account if it's in
 		// the pending batch state, to allow traders to participate in
 		// consecutive batches. This isn't necessary for the pending
@@ -1328,6 +1335,14 @@ func (m *manager) DepositAccount(ctx context.Context,
 		return nil, nil, err
 	}
 
+	// If the deposit also changed the expiry of the account, track the new
+	// expiration, which will overwrite the existing expiration request.
+	if newExpiry != nil {
+		m.watcherCtrl.WatchAccountExpiration(
+			traderKey, modifiedAccount.Expiry,
+		)
+	}
+
 	return modifiedAccount, spendTx, nil
 }
 
@@ -1412,6 +1427,14 @@ func (m *manager) WithdrawAccount(ctx context.Context,
 	)
 	if err != nil {
 		return nil, nil, err
+	}
+
+	// If the withdrawal also changed the expiry of the account, track the
+	// new expiration, which will overwrite the existing expiration request.
+	if newExpiry != nil {
+		m.watcherCtrl.WatchAccountExpiration(
+			traderKey, modifiedAccount.Expiry,
+		)
 	}
 
 	return modifiedAccount, spendTx, nil
